@@ -270,49 +270,6 @@ Definition o_observe (defs : list sdef) (os : ostore) : obs :=
      o_meas := map (fun l => meas_of defs (o_series l (length defs))) os;
      o_store_meas := sort_names (flat_map (fun l => map (sname defs) (o_series l (length defs))) os) |}.
 
-(** * Correspondence case *)
-Inductive cstep :=
-| CWrite (sh : nat) (pts : log)
-| CSnap (sh : nat)
-| CDelete (lo hi : Z) (p : pred) (mname : option bytes) (o : obs)
-| CGuard (sh : nat) (lo hi : Z) (p : pred) (mname : option bytes) (wa wb : log)
-         (parked aearly bearly : bool) (o : obs).
-
-Record case := { c_defs : list sdef; c_nshards : nat; c_steps : list cstep }.
-
-Definition zz_eqb := list_eqb (pair_eqb Z.eqb Z.eqb).
-Definition obs_eqb (a b : obs) : bool :=
-  list_eqb (list_eqb zz_eqb) (o_reads a) (o_reads b) &&
-  list_eqb (list_eqb N.eqb) (o_listed a) (o_listed b) &&
-  list_eqb (list_eqb bytes_eqb) (o_meas a) (o_meas b) &&
-  list_eqb bytes_eqb (o_store_meas a) (o_store_meas b).
-
-Definition conflicts (pts : log) (lo hi : Z) : bool := existsb (fun e => in_range lo hi (snd (fst e))) pts.
-
-Fixpoint check_steps (defs : list sdef) (c : list cstep) (st : store) (os : ostore) (same ok : bool) : bool * bool :=
-  match c with
-  | [] => (same, ok)
-  | CWrite sh pts :: r =>
-      check_steps defs r (upd_nth sh (shard_write pts) st) (upd_nth sh (fun l => l ++ pts) os) same ok
-  | CSnap sh :: r => check_steps defs r (upd_nth sh shard_snapshot st) os same ok
-  | CDelete lo hi p mname o :: r =>
-      let st' := store_delete defs p lo hi mname st in
-      let os' := map (o_delete defs p lo hi) os in
-      check_steps defs r st' os' (same && obs_eqb o (observe defs st')) (ok && obs_eqb o (o_observe defs os'))
-  | CGuard sh lo hi p mname wa wb parked ae be o :: r =>
-      let st' := upd_nth sh (fun s => shard_write wb (shard_write wa s)) (store_delete defs p lo hi mname st) in
-      let os' := upd_nth sh (fun l => l ++ wa ++ wb) (map (o_delete defs p lo hi) os) in
-      let ea := parked && negb (conflicts wa lo hi) in
-      let eb := parked && negb (conflicts wb lo hi) in
-      let g := Bool.eqb ae ea && Bool.eqb be eb in
-      check_steps defs r st' os' (same && g && obs_eqb o (observe defs st')) (ok && g && obs_eqb o (o_observe defs os'))
-  end.
-
-Definition check (c : case) : verdict :=
-  let '(same, ok) :=
-    check_steps (c_defs c) (c_steps c) (repeat (SH [] [] []) (c_nshards c)) (repeat [] (c_nshards c)) true true in
-  judge same ok.
-
 (** * The epoch tracker and the delete guards (tsdb/epoch_tracker.go, tsdb/guard.go)
 
     Atomic steps (each is one critical section of [epochTracker.mu] in the code):
@@ -382,3 +339,67 @@ Fixpoint tr_run (tr : tracker) (es : list event) : option tracker :=
   | [] => Some tr
   | e :: r => match tr_step tr e with Some tr' => tr_run tr' r | None => None end
   end.
+
+(** * Correspondence case *)
+Inductive cstep :=
+| CWrite (sh : nat) (pts : log)
+| CSnap (sh : nat)
+| CDelete (lo hi : Z) (p : pred) (mname : option bytes) (o : obs)
+| CGuard (sh : nat) (lo hi : Z) (p : pred) (mname : option bytes) (wa : log) (wbs : list log)
+         (parked aearly : bool) (nblocked : N) (o : obs).
+
+Record case := { c_defs : list sdef; c_nshards : nat; c_steps : list cstep }.
+
+Definition zz_eqb := list_eqb (pair_eqb Z.eqb Z.eqb).
+Definition obs_eqb (a b : obs) : bool :=
+  list_eqb (list_eqb zz_eqb) (o_reads a) (o_reads b) &&
+  list_eqb (list_eqb N.eqb) (o_listed a) (o_listed b) &&
+  list_eqb (list_eqb bytes_eqb) (o_meas a) (o_meas b) &&
+  list_eqb bytes_eqb (o_store_meas a) (o_store_meas b).
+
+Definition conflicts (pts : log) (lo hi : Z) : bool := existsb (fun e => in_range lo hi (snd (fst e))) pts.
+
+Fixpoint write_each (i : nat) (ws : list log) (st : store) : store :=
+  match ws with [] => st | w :: r => write_each (S i) r (upd_nth i (shard_write w) st) end.
+Fixpoint owrite_each (i : nat) (ws : list log) (os : ostore) : ostore :=
+  match ws with [] => os | w :: r => owrite_each (S i) r (upd_nth i (fun l => l ++ w) os) end.
+
+Fixpoint check_steps (defs : list sdef) (c : list cstep) (st : store) (os : ostore) (same ok : bool) : bool * bool :=
+  match c with
+  | [] => (same, ok)
+  | CWrite sh pts :: r =>
+      check_steps defs r (upd_nth sh (shard_write pts) st) (upd_nth sh (fun l => l ++ pts) os) same ok
+  | CSnap sh :: r => check_steps defs r (upd_nth sh shard_snapshot st) os same ok
+  | CDelete lo hi p mname o :: r =>
+      let st' := store_delete defs p lo hi mname st in
+      let os' := map (o_delete defs p lo hi) os in
+      check_steps defs r st' os' (same && obs_eqb o (observe defs st')) (ok && obs_eqb o (o_observe defs os'))
+  | CGuard sh lo hi p mname wa wbs parked ae nb o :: r =>
+      (* writer A goes to shard [sh]; writer i of [wbs] goes to shard i; all are started while
+         the delete is parked on ONE (unknown) shard: that shard's tracker has the delete
+         registered, the others have none (already Done, or not yet reached: limiter of 1). *)
+      let st' := write_each 0 wbs (upd_nth sh (shard_write wa) (store_delete defs p lo hi mname st)) in
+      let os' := owrite_each 0 wbs (upd_nth sh (fun l => l ++ wa) (map (o_delete defs p lo hi) os)) in
+      let times (l : log) := map (fun e => snd (fst e)) l in
+      let blocked_parked (l : log) :=      (* on the shard the delete is parked on *)
+        match tr_run tr_init [EStartDelete lo hi; EStartWrite (times l)] with
+        | Some tr => existsb (w_blocked tr) (t_ws tr) | None => false end in
+      let blocked_other (l : log) :=
+        match tr_run tr_init [EStartWrite (times l)] with
+        | Some tr => existsb (w_blocked tr) (t_ws tr) | None => false end in
+      let ea := parked && negb (blocked_parked wa) && negb (blocked_other wa) in
+      let g :=
+        Bool.eqb ae ea &&
+        (if parked then
+           (* every writer of [wbs] conflicts: exactly the one on the parked shard waits *)
+           if forallb blocked_parked wbs && negb (existsb blocked_other wbs)
+           then N.eqb nb (match wbs with [] => 0 | _ => 1 end)%N else true
+         else N.eqb nb 0%N) in
+      check_steps defs r st' os' (same && g && obs_eqb o (observe defs st')) (ok && g && obs_eqb o (o_observe defs os'))
+  end.
+
+Definition check (c : case) : verdict :=
+  let '(same, ok) :=
+    check_steps (c_defs c) (c_steps c) (repeat (SH [] [] []) (c_nshards c)) (repeat [] (c_nshards c)) true true in
+  judge same ok.
+
